@@ -63,6 +63,8 @@ type VC struct {
 	inlineDep  int
 	paramVals  map[string]specVal // for model extraction
 	entry      *hstate
+	lemmaDone  map[string]bool
+	lemmaName  string
 	qf         int                // >0: quantifier-free candidate search with this length bound
 	notes      []string
 }
@@ -75,7 +77,7 @@ type closureInfo struct {
 func newVC(eng *Engine, fn *ssa.Function, c *Contract) *VC {
 	vc := &VC{eng: eng, top: fn, topC: c, declared: map[string]bool{}, heapSort: map[string]string{}, strLits: map[string]string{},
 		typeTags: map[string]int{}, funcIDs: map[string]int{}, closures: map[string]*closureInfo{}, assumed: map[string]bool{}, keyCount: map[string]int{},
-		specDecl: map[string]bool{}, structDecl: map[string]bool{}, ifaceImpl: map[string]bool{}, paramVals: map[string]specVal{}}
+		lemmaDone: map[string]bool{}, specDecl: map[string]bool{}, structDecl: map[string]bool{}, ifaceImpl: map[string]bool{}, paramVals: map[string]specVal{}}
 	return vc
 }
 
@@ -649,6 +651,9 @@ func (f *frame) defaultProps() []string {
 }
 
 func funcDisplay(fn *ssa.Function) string {
+	if fn == nil {
+		return "lemma"
+	}
 	pkg := ""
 	if fn.Pkg != nil {
 		pkg = fn.Pkg.Pkg.Name() + "."
